@@ -741,6 +741,32 @@ func (p *player) step(s ScStep) {
 				go p.acceptLoop(s.Ep, nl)
 			}
 		}
+	case "beacon":
+		// one frame object (already fixed) written again and again, and to one channel after the other, without waiting
+		// for the wires: what a router forwarding a received frame to a chosen subset of channels does. Only used under
+		// the race detector (the tags repeat, so the wire monitor is not applied to these scenarios).
+		fr := &frame.V2Frame{SequenceNumber: 1, SystemID: 77, ComponentID: 88, Message: tagMsg(s.Tag, 1)}
+		if p.sc.Conf.Version == 1 {
+			p.rec.Put(M{"e": "Note", "what": "beacon uses a v2 frame"})
+		}
+		if err := p.node.FixFrame(fr); err != nil {
+			p.rec.Put(M{"e": "Note", "what": "beacon FixFrame: " + err.Error()})
+			return
+		}
+		p.mu.Lock()
+		var chans []*gomavlib.Channel
+		for _, c := range p.byInst {
+			chans = append(chans, c)
+		}
+		p.mu.Unlock()
+		for i := 0; i < s.N; i++ {
+			for _, c := range chans {
+				p.node.WriteFrameTo(c, fr) //nolint:errcheck
+			}
+			if i%3 == 0 {
+				p.node.WriteFrameAll(fr) //nolint:errcheck
+			}
+		}
 	case "dns_point":
 		p.dnsIP.Store(s.Mode)
 		p.rec.Put(M{"e": "DNSPoint", "ip": s.Mode, "t": p.ms()})
